@@ -183,4 +183,32 @@ end
 /-- reader tokens of a document -/
 def lexemes (d : Doc) : List RTok := lexFields d
 
+mutual
+/-- tape tokens of a value that starts at tape index `base` (containers carry the index of their
+`End`, the `End` the index of its opener; an empty `{}` is an array; the `=` operator is not stored) -/
+def tapeNode : Nat → Node → List TTok
+  | _, .leaf l => [l.ttok]
+  | base, .obj [] => [TTok.arr (base + 1) false, TTok.end_ base]
+  | base, .obj (f :: fs) =>
+    let body := tapeFields (base + 1) (f :: fs)
+    TTok.obj (base + 1 + body.length) false :: body ++ [TTok.end_ base]
+  | base, .arr vs =>
+    let body := tapeNodes (base + 1) vs
+    TTok.arr (base + 1 + body.length) false :: body ++ [TTok.end_ base]
+def tapeFields : Nat → List (Bytes × Op × Node) → List TTok
+  | _, [] => []
+  | base, (k, o, v) :: r =>
+    let opToks : List TTok := match o with | .eq => [] | o => [TTok.op o]
+    let val := tapeNode (base + 1 + opToks.length) v
+    TTok.unq k :: opToks ++ val ++ tapeFields (base + 1 + opToks.length + val.length) r
+def tapeNodes : Nat → List Node → List TTok
+  | _, [] => []
+  | base, v :: r =>
+    let val := tapeNode base v
+    val ++ tapeNodes (base + val.length) r
+end
+
+/-- tape tokens of a document -/
+def tapeOf (d : Doc) : List TTok := tapeFields 0 d
+
 end Jomini.TextDoc
